@@ -274,12 +274,17 @@ def _obligations(tier):
     ] + _grammar_obligations(tier)
 
 
-# ---- addrlist_grammar / grammar_stable: the address list is DERIVED from a bounded grammar with symbolic choices
+# ---- addrlist_grammar / addr_grammar (h4): the address list is DERIVED from a bounded grammar with symbolic choices
 def _grammar_unwind(p):
     n = p["NTOK"]
-    return {"strlen": 64, "substdio_put": 64, "vmain": 32, "same": 25, "same2": 26, "note2": 26, "note2.0": 4,
-            "comments_here": p["NC"] + 1, "mailbox": 4, "address_list": p.get("NM", 1) + 2, "g_finish": 30, "fpos": 4, "gotaddr": p["NTOK"] + 2, "gotaddr.1": 4, "gotaddr.2": 13, "grammar_assumptions": 32, "reference_read": 58,
-            "token822_unquote.1": 4}
+    return {"strlen": 64, "substdio_put": 64, "vmain": 32, "same": 25, "mailbox": 4, "address_list": p.get("NM", 1) + 2,
+            "g_finish": n + 2, "g_finish.0": n + 4, "fpos": 4, "gotaddr": n + 2, "gotaddr.1": 4, "gotaddr.2": 13,
+            "grammar_assumptions": 32, "reference_read": 58, "token822_unquote.1": 4}
+
+
+def _addr_point(ang, nr, nl, nd, nc, edge=0):
+    ntok = (2 if ang else 0) + {0: 0, 1: 3, 2: 5, 3: 6}[nr] + (2 * nl - 1) + (2 * nd if nd else 0) + (nc if ang else 0)
+    return {"S_ANG": ang, "S_NR": nr, "S_NL": nl, "S_ND": nd, "NC": nc if ang else 0, "NTOK": ntok}
 
 
 def _grammar_obligations(tier):
@@ -292,12 +297,62 @@ def _grammar_obligations(tier):
     listprogs = dict(common)
     listprogs["progs"] = [Prog("qmail-inject.c", nomain=True), Prog("token822.c", cut=["gotaddr"], link=True)]
     listprogs["repo"] = [f for f in common["repo"] if f != "token822.c"]
+    # address skeletons (angle form?, route kind, local-part words, sub-domains): concrete per query; word kinds, plus flag,
+    # contents and comment positions symbolic.  measured (idle machine): bare a.b / a.b@c 36 s / 100 s, 0.6 / 2.1 GB;
+    # <@g:a@b> with one comment 320 s, 3.7 GB (thorough only); symbolic skeleton: no verdict in 900 s at 6 tokens.
+    shapes = [(0, 0, 2, 1), (0, 0, 2, 0), (1, 1, 1, 1)]
     return [
+        # kills (VERIF_REPO=/tmp/wt-h4-N ./check C17 --only addr_grammar, VIOLATION with native replay rc 1):
+        #   seed3 C17 patch2 (rwnodot keeps scanning past '@' into a dotted local part: a.b@c / bare a.b get no default domain),
+        #   plus_keep (rwplus no longer removes the '+'), defaulthost_order (rwnoat inserts the default-host tokens in the wrong order)
+        Obl("addr_grammar", "addr_grammar.c",
+            defines={"ARENA_SLOTS": 2, "ARENA_CAP": 24},
+            grid=[_addr_point(*sh, nc=1) for sh in (shapes[:2] if tier == "quick" else shapes)],
+            unwind=_grammar_unwind, unwind_default=lambda p: p["NTOK"] + 6,
+            timeout=600 if tier == "quick" else 1800,
+            functions=["qmail-inject.c:rwtocc", "qmail-inject.c:rwgeneric", "qmail-inject.c:rwroute", "qmail-inject.c:rwextradot",
+                       "qmail-inject.c:rwextraat", "qmail-inject.c:rwnoat", "qmail-inject.c:rwplus", "qmail-inject.c:rwnodot",
+                       "qmail-inject.c:rwappend", "token822.c:token822_unquote", "token822.c:token822_reverse"],
+            stubs=["stralloc_ready/readyplus: arena", "malloc/realloc: must not be reached (arrays pre-sized)", "_exit: must not be reached"],
+            assumes=["one address derived from grammar822.h: [route] local-part [@ domain]; skeleton (angle form, route kind, number of "
+                     "local-part words and sub-domains) concrete per grid point; word kinds (atom / quoted-string / domain-literal), the "
+                     "plus flag, every content byte and the position of up to NC comments inside <...> symbolic",
+                     "the address is handed to rwtocc as token822_addrlist hands it to its callback (last token first; comments only inside "
+                     "<...>): that interface is obligation addrlist_grammar",
+                     "known finding (known-findings.txt, KF_EDGE_COMMENT): a comment as FIRST or LAST token between < and > is assumed away - with "
+                     "one there the unchanged code does not strip the route / does not apply the plus domain (<(c)@g:a@b>, <a@b+ (c)>; "
+                     "confirmed on the real qmail-inject binary)",
+                     "defaults dh / dd / pd; domain atoms are not '+' except through the plus flag"],
+            outside=["skeletons not in the grid (quick: a.b@c, a.b; thorough adds <@g:a@b> with one comment)", "atoms longer than one byte"],
+            claim="for every derivation of the address part within the skeleton, rwtocc puts exactly the documented envelope form "
+                  "(lone box -> @dh.dd, host without dots -> .dd, host ending in + -> .pd, route stripped, quotes removed) on the "
+                  "header recipient list, and leaves the same rewritten address in the token list",
+            expect_witnesses=["derived"], **common),
+        # kills (VERIF_REPO=/tmp/wt-h4-N ./check C17 --only addrlist_grammar, VIOLATION with native replay rc 1):
+        #   seeded/C17-comment-inside-display-name-ends-phrase (without forms 21-23: derivation  word (comment) <a>),
+        #   phrase_noquote (token822_addrlist: the phrase loop in front of '<' no longer accepts quoted-strings),
+        #   groupname_stops_at_comment (COLON case: copying the group name stops at a comment)
         Obl("addrlist_grammar", "addrlist_grammar.c",
             defines={"ARENA_SLOTS": 1, "ARENA_CAP": 64},
-            grid=[{"NM": 1, "NTOK": 8, "NC": 1}, {"NM": 2, "NTOK": 8, "NC": 1}, {"NM": 2, "NTOK": 10, "NC": 2}, {"NM": 3, "NTOK": 8, "NC": 1}],
-            unwind=_grammar_unwind, unwind_default=lambda p: p["NTOK"] + 4,
-            timeout=600,
-            claim="x",
-            expect_witnesses=["derived"], **listprogs),
+            grid=[{"NM": 1, "NTOK": 5, "NC": 1}] + ([] if tier == "quick" else [{"NM": 1, "NTOK": 6, "NC": 1}]),
+            unwind=_grammar_unwind, unwind_default=lambda p: p["NTOK"] + 3,
+            # measured: array field sensitivity off 146k -> 36k SSA steps; slicing (output list contents are not examined) 2.8M -> 0.27M variables
+            flags=["--slice-formula", "--max-field-sensitivity-array-size", "2"],
+            std_checks=False,      # 40k pointer VCCs; memory safety of token822_addrlist: addrlist_forms (std checks on) and C20
+            timeout=600 if tier == "quick" else 1800,
+            functions=["token822.c:token822_addrlist", "token822.c:token822_append", "token822.c:token822_readyplus", "token822.c:token822_reverse"],
+            cuts=["gotaddr (static, token822.c) -> checks that the address it is handed is the address part of exactly one listed mailbox, "
+                  "appends, empties the address list, returns 1; contract proved on the real function by gotaddr_contract; what the "
+                  "callback makes of such an address: addr_grammar"],
+            stubs=["malloc/realloc: must not be reached (token arrays pre-sized)"],
+            assumes=["token list of a To: field derived from the bounded grammar of grammar822.h by symbolic choices: NM mailboxes (bare or "
+                     "[phrase] <[route] addr-spec>), one optional (possibly empty) group, empty list elements, missing comma in front of a bare "
+                     "addr-spec, up to NC comments at any position, at most NTOK tokens; every choice and every content byte symbolic"],
+            outside=["lists longer than NTOK tokens or with more than NM mailboxes (quick: 1 mailbox, 5 tokens; thorough 6 tokens): longer "
+                     "concrete lists are addrlist_forms", "text -> token list (token822_parse): header_roundtrip",
+                     "GSTAB=1 (unparse + second reading of the rewritten field on every derivation) is implemented in the harness but not in "
+                     "the grid: not measured inside the budget"],
+            claim="for every derivation within the bound, token822_addrlist completes exactly the listed mailboxes: each address handed to "
+                  "the callback is the address part of one listed mailbox, each mailbox once, nothing else becomes a recipient",
+            expect_witnesses=["derived", "comment_in_phrase"], **listprogs),
     ]
